@@ -138,7 +138,9 @@ def enter (w : World) (v : VehicleId) : Act → Outcome World
         | none => .error
         | some st =>
           if !env.mechKnown veh.mech then .error
+          else if base.pos.cell != veh.pos.cell then .rejected
           else if !base.members.grants veh.members then .error
+          else if !st.members.grants veh.members then .error
           else match base.checkout with
             | none => .rejected
             | some base' =>
@@ -351,8 +353,12 @@ def move (w : World) (v : VehicleId) : Outcome World :=
         else
           let less := { veh with en := env.consume veh tr.experienced }
           if env.isEmpty less then
-            -- `_go_out_of_service_on_empty`: OutOfService.enter on the *incoming* sim, no exit
-            let s ← applyAct env w.sim v .outOfService
+            -- `_go_out_of_service_on_empty`: exit of the interrupted activity (a refusal or an
+            -- error is ignored), then OutOfService.enter; the vehicle itself is the incoming one
+            let s0 := match exit env w.sim v veh.act with
+              | .ok s' => s'
+              | _ => w.sim
+            let s ← applyAct env s0 v .outOfService
             pure { w with sim := s }
           else
             match tr.experienced.getLast? with
